@@ -49,6 +49,7 @@ type monState struct {
 	startStep  map[string]int
 	startAt    map[string]time.Duration
 	defChanged map[string]int // pipeline -> step of the last content change of its definition (0: never)
+	lastReload int            // step of the last reload that changed any definition
 	cancels    []cancelAck
 	removed    map[string]int // job -> step of the save that removed it
 	firstFail  map[string]int // job -> step of first non-allowed failure
@@ -63,6 +64,9 @@ type monState struct {
 	listStart    map[int]int             // client -> step at which its HTTP list request arrived
 	pipeHist     []string                // step -> canonical pipeline list reported after that step
 	replaced     map[string]bool         // jobs that were replaced while they waited
+	snapRing     [64]*Snap               // the last snapshots, by step number modulo its length (C12 r6)
+	logsPending  map[string]*pendingLogs // job removed by a save whose log files were still there in the step of the removal
+	removeFailed map[string]bool         // jobs whose log removal failed by injection
 	snapAtSave   map[int]*Snap       // handed-save index -> API snapshot at the instant the snapshot was built
 	lastChangeAt time.Duration       // fake time of the last step that changed the reported state
 	liveExec      map[string]int     // job -> scheduler runs begun and not yet completed
@@ -74,7 +78,7 @@ type monState struct {
 func newMonState(run *Run) *monState {
 	return &monState{run: run, acc: map[string]*acceptInfo{}, evByJob: map[string][]Event{},
 		startStep: map[string]int{}, startAt: map[string]time.Duration{}, defChanged: map[string]int{},
-		removed: map[string]int{}, firstFail: map[string]int{}, replaced: map[string]bool{}, taskOrderByDef: map[string]string{},
+		removed: map[string]int{}, firstFail: map[string]int{}, replaced: map[string]bool{}, logsPending: map[string]*pendingLogs{}, removeFailed: map[string]bool{}, taskOrderByDef: map[string]string{},
 		worldOfJob: map[string]int{}, forcedCancel: map[string]bool{}, undefinedAt: map[string]int{},
 		lastSeen: map[string]*JobSnap{}, snapAtSave: map[int]*Snap{}, initialLoaded: "[]",
 		liveExec: map[string]int{}, execPipeline: map[string]string{}}
@@ -268,9 +272,11 @@ func (m *monState) onStep(si *StepInfo, pre, post *Snap, evs []Event) {
 			run.violate("C13", "r9", "read-only operation %s changed the reported state", si.Name)
 		}
 	}
-	if isSavePoint(si.Point) {
+	m.snapRing[si.N%len(m.snapRing)] = post
+	if si.InSave {
 		m.checkSaveStep(si, pre, post, evs)
 	}
+	m.checkPendingLogRemovals(si, false)
 	m.checkSavedDataStable(si)
 	if si.Point == "Shutdown.begin" {
 		m.shutdownJobsRunningAtBegin = map[string]bool{}
@@ -985,6 +991,7 @@ func (m *monState) checkReload(si *StepInfo, res *OpResult, pre, post *Snap) {
 	for n := range names {
 		if pipeKey(w.defs.pipe(n)) != pipeKey(nd.pipe(n)) {
 			m.defChanged[n] = si.N
+			m.lastReload = si.N
 		}
 		if nd.pipe(n) == nil {
 			m.undefinedAt[n] = si.N // the pipeline does not "remain defined" for jobs accepted before this step
@@ -1033,7 +1040,7 @@ func (m *monState) checkInvariants(si *StepInfo, pre, post *Snap) {
 		}
 		j := post.Jobs[name]
 		if j == nil {
-			if isSavePoint(si.Point) {
+			if si.InSave {
 				m.removed[name] = si.N
 				continue
 			}
@@ -1148,6 +1155,7 @@ func (m *monState) onSettled() {
 // end of run (after the drain phase)
 
 func (m *monState) onEnd() {
+	m.checkPendingLogRemovals(nil, true)
 	run := m.run
 	w := run.cur
 	if w == nil || w.isDead() || !run.stats.Drained {
@@ -1395,13 +1403,6 @@ func sortedJobNames(m map[string]*JobSnap) []string {
 	}
 	sort.Strings(ks)
 	return ks
-}
-
-
-// isSavePoint: hook points of SaveToStore at or after which its removal phase runs
-// (the committed hook at its top, and the automatically inserted one before its lock).
-func isSavePoint(point string) bool {
-	return point == "SaveToStore" || strings.HasPrefix(point, "auto.") && strings.Contains(point, ":SaveToStore#")
 }
 
 
